@@ -675,6 +675,34 @@ let oracle (kind : string) (body : sexp list) (impl : string) : string option =
       if not (wf delivered) then Some "reject:C01 a notification after the terminal, or a second terminal"
       else if not (quiet false toks) then Some "reject:C02 a notification after unsubscribe() returned"
       else Some "ok"
+  | "ileave2" when head (List.nth body 0) = "share" ->
+      (* share_threads with subscribers joining and leaving from threads: C11 (the source is connected at most once, an
+         item passing the upstream tap reaches subscribers only once each), C10 (no deadlock / panic / overlap), C01 / C02 per subscriber *)
+      if impl = "-" then Some "ok" else
+      let toks = (match parse ("(" ^ impl ^ ")") with List l -> l | _ -> []) in
+      let ending = (match List.rev toks with Atom w :: _ -> w | _ -> "none") in
+      let connects = List.length (List.filter (fun x -> x = List [Atom "connect"]) toks) in
+      let probes = List.sort_uniq compare (List.filter_map (function List (Atom "vp" :: k :: _) -> Some (int_of k) | _ -> None) toks) in
+      let evs_of k = List.filter_map (function List [Atom "vp"; k'; e; _; _] when int_of k' = k -> Some (ev_of e) | _ -> None) toks in
+      let rec quiet k gone = function
+        | [] -> true
+        | List [Atom "up"; k'; _; _] :: r when int_of k' = k -> quiet k true r
+        | List (Atom "vp" :: k' :: _) :: r when int_of k' = k -> not gone && quiet k gone r
+        | _ :: r -> quiet k gone r in
+      let taps = List.filter_map (function List [Atom "tap"; v] -> Some (val_of v) | _ -> None) toks in
+      let items k = List.filter_map (function Next v -> Some v | _ -> None) (evs_of k) in
+      let rec subseq a b = (match a, b with [], _ -> true | _, [] -> false | x :: a', y :: b' -> if x = y then subseq a' b' else subseq a b') in
+      if List.exists (function List [Atom "panic"; _] -> true | _ -> false) toks then Some "reject:C10 a thread panicked"
+      else if ending = "hang" then Some "reject:C10 a call did not return"
+      else if ending = "deadlock" then Some "reject:C10 deadlock: every unfinished thread waits for a mutex another one holds"
+      else if ending <> "fin" then Some "reject:the schedule ended before the threads did"
+      else if List.exists (function List [Atom "ov"; _] -> true | _ -> false) toks then Some "reject:C10 a subscriber's callback ran on two threads at once"
+      else if connects > 1 then Some "reject:C11 share() subscribed its source more than once"
+      else if List.exists (fun k -> not (wf (evs_of k))) probes then Some "reject:C01 a notification after the terminal"
+      else if List.exists (fun k -> not (quiet k false toks)) probes then Some "reject:C02 a subscriber was called after its unsubscribe() had returned"
+      else if List.exists (fun k -> not (subseq (items k) taps)) probes
+      then Some "reject:C11 a subscriber received an item that did not pass the shared source, or one of them twice, or out of order"
+      else Some "ok"
   | "ileave2" ->
       if impl = "-" then Some "ok" else
       let pipe = List.nth body 0 in
